@@ -344,3 +344,7 @@ def run(ctx, R):
     R.count('R12.3', n3, 3)
     r124(ctx, R)
     r125(ctx, R)
+    from psa import sqlshape
+    n = sqlshape.shape_rule(ctx, R, 'R12.6', [
+        'placement.objects.consumer:delete_consumers_if_no_allocations'])
+    R.count('R12.6', n, 1)
